@@ -367,6 +367,45 @@ fn rt_case(stmts: &[Sexp]) -> Sexp {
     Sexp::app("pass", vec![Sexp::int(orig.len() as i64)])
 }
 
+/// whole files of the other formats (old ECL with difficulty ladders and time labels between the rungs, MSG,
+/// STD): compile, decompile with default options, recompile; the TIMES of all instructions of every script,
+/// read from both binaries with the independent layout parser's instruction walker via truth's own reader,
+/// must be the same sequence (which opcodes / masks the recompile picks is C01's and C14's subject)
+fn rtfile_case(a: &[Sexp]) -> Sexp {
+    let format = Format::from_name(a[0].as_atom());
+    let game = tc::game(a[1].as_atom());
+    let maps: Vec<String> = a[2].as_list().iter().map(|m| m.as_atom().to_string()).collect();
+    let text = a[3].as_atom();
+    let c = tc::compile(format, game, &maps, text.as_bytes());
+    let Some(bytes) = c.value else { return Sexp::app("skip", vec![Sexp::str(diag_class(&c.diagnostics))]); };
+    let d = tc::decompile(format, game, &maps, &bytes, &tc::options_from_bits(0), 100);
+    let Some(dtext) = d.value else { return fail("compiled-script-does-not-decompile", format!("{} {}: {}", format.name(), game, diag_class(&d.diagnostics))); };
+    if d.diagnostics.lines().any(|l| l.starts_with("warning")) { return Sexp::app("skip", vec![Sexp::atom("decompile-warned")]); }
+    let re = tc::compile_with_image_source(format, game, &maps, dtext.as_bytes(), if format == Format::Anm { Some(&bytes) } else { None });
+    let Some(bytes2) = re.value else { return Sexp::app("skip", vec![Sexp::atom("recompile-fails"), Sexp::str(diag_class(&re.diagnostics))]); };   // (C01 reports this)
+    let times = |b: &[u8]| -> Option<Vec<Vec<i32>>> {
+        let o = tc::with_truth(format, game, &maps, |truth| {
+            let f = tc::read_bytes(truth, format, game, b)?;
+            Ok(match &f {
+                Compiled::Anm(f) => f.entries.iter().flat_map(|e| e.scripts.values().map(|s| s.script.instrs.iter().map(|i| i.time).collect::<Vec<i32>>())).collect::<Vec<_>>(),
+                Compiled::Ecl(truth::EclFile::Olde(f)) => f.subs.values().map(|s| s.instrs.iter().map(|i| i.time).collect()).chain(f.timelines.iter().map(|t| t.iter().map(|i| i.time).collect())).collect(),
+                Compiled::Msg(f) => f.scripts.values().map(|s| s.iter().map(|i| i.time).collect()).collect(),
+                Compiled::Std(f) => vec![f.script.iter().map(|i| i.time).collect()],
+                _ => vec![],
+            })
+        });
+        o.value
+    };
+    let (Some(t0), Some(t1)) = (times(&bytes), times(&bytes2)) else { return Sexp::app("skip", vec![Sexp::atom("unreadable")]); };
+    // a difficulty switch may legitimately merge or split instructions of equal time: compare the per-script
+    // sequences with consecutive equal times collapsed
+    let collapse = |v: &Vec<Vec<i32>>| -> Vec<Vec<i32>> { v.iter().map(|s| { let mut o: Vec<i32> = vec![]; for &t in s { if o.last() != Some(&t) { o.push(t); } } o }).collect() };
+    if collapse(&t0) != collapse(&t1) {
+        return fail("decompiled-labels-do-not-reproduce-times", format!("{} {}: times {:?} recompiled {:?} | text: {}", format.name(), game, t0, t1, dtext.chars().take(500).collect::<String>().replace('\n', " ")));
+    }
+    Sexp::app("pass", vec![Sexp::int(t0.iter().map(|s| s.len()).sum::<usize>() as i64)])
+}
+
 // ---------------------------------------------------------------------------------------------
 // generators
 
@@ -575,12 +614,19 @@ impl Prop for C13 {
             let known = has_rlabel_collision(&c);
             out.push(Case::search(Sexp::app("rtraw", c)).tag(if known { "roundtrip-stored-start-and-instr1-r-labels" } else { "roundtrip-stored" }).trivial(!nt));
         }
+        // whole files of the formats the streams above do not go through (time labels between per-difficulty copies, ...)
+        for _ in 0..500 * scale {
+            let g = match rng.below(4) { 0 | 1 => { let game = *rng.pick(crate::gensrc::GAMES_ECL); crate::gensrc::gen_ecl(rng, game) }, _ => crate::gensrc::gen_any(rng) };
+            if g.format == Format::Mission { continue; }
+            out.push(Case::search(Sexp::app("rtfile", vec![Sexp::atom(g.format.name()), Sexp::atom(format!("{}", g.game)), Sexp::list(g.maps.iter().map(|m| Sexp::str(m.clone())).collect()), Sexp::str(g.text)])).tag(format!("rtfile-{}", g.format.name())));
+        }
         out
     }
 
     fn eval(&self, case: &Sexp) -> Sexp {
         let a = case.args();
         match case.head() {
+            Some("rtfile") => rtfile_case(a),
             Some("compile") => compile_case(a),
             Some("visit") => visit_case(a),
             Some("raise") => raise_case(a),
